@@ -463,7 +463,7 @@ pub fn run(cfg: &RunCfg) -> i32 {
     return crate::replay_main::<Case>(cfg, path, check);
   }
   crate::replay_known::<Case>(&mut report, &known, check);
-  let total = cfg.budget(5_000, 60_000);
+  let total = cfg.budget(5_000, 200_000);
   let o = drive(cfg, "cli-output", total, &known, strategy, interpret, check);
   report.absorb("cli-output", o);
   cli::cleanup_work_root();
